@@ -300,16 +300,68 @@ var optsCatalogue = []*sqlh.Opts{
 
 var singleOps = []string{"query", "query", "queryrow", "fullscan", "count", "count", "insert", "insertrows", "upsert", "upsertrows", "update", "delete"}
 
+// callOps: what a single-method case may call -- every exported method of sqlgen.DB.
+var callOps = append(append([]string{}, singleOps...), "basequery", "basequery", "withtx", "withexistingtx", "hastx", "queryexecer",
+	"withshardlimit", "withdynamiclimit", "withpaniconnoindex")
+
+// chain: a chain of With* calls that yields handle h: its limits in either order, WithPanicOnNoIndex somewhere
+// (40%), and now and then a second shard / dynamic limit or a second WithPanicOnNoIndex after the first (which
+// must be refused and change nothing).
+func (g *gen) chain(t *sqlh.TableDesc, h sqlh.Handle) []sqlh.Step {
+	steps := sqlh.StepsOf(h)
+	if len(steps) == 2 && g.R.Bool() {
+		steps[0], steps[1] = steps[1], steps[0]
+	}
+	insertAfter := func(kind string, s sqlh.Step) {
+		first := -1
+		for i, x := range steps {
+			if x.Kind == kind {
+				first = i
+				break
+			}
+		}
+		pos := first + 1 + g.R.Intn(len(steps)-first)
+		steps = append(steps[:pos], append([]sqlh.Step{s}, steps[pos:]...)...)
+	}
+	if g.R.Chance(40) {
+		pos := g.R.Intn(len(steps) + 1)
+		steps = append(steps[:pos], append([]sqlh.Step{{Kind: "explain"}}, steps[pos:]...)...)
+		if g.R.Chance(25) {
+			insertAfter("explain", sqlh.Step{Kind: "explain"})
+		}
+	}
+	if h.Shard != nil && g.R.Chance(30) { // a second shard limit: looser, other, or none at all
+		l := g.limit(t)
+		if g.R.Chance(30) {
+			l = sqlh.Filter{}
+		}
+		insertAfter("shard", sqlh.Step{Kind: "shard", Filter: l})
+	}
+	if h.HasDyn && g.R.Chance(30) {
+		s := sqlh.Step{Kind: "dyn", Filter: g.limit(t), Cb: true, Cont: g.R.Bool()}
+		if g.R.Chance(30) {
+			s = sqlh.Step{Kind: "dyn"}
+		}
+		insertAfter("dyn", s)
+	}
+	return steps
+}
+
 // sub makes one DB method call for handle h.
 func (g *gen) sub(t *sqlh.TableDesc, h sqlh.Handle, op string) Sub {
 	s := Sub{Op: op}
 	switch op {
-	case "query", "queryrow", "fullscan", "count":
+	case "query", "queryrow", "fullscan", "basequery", "count":
 		s.Filter, _ = g.readFilter(t, h)
 		if op != "count" && g.R.Chance(40) {
 			o := *optsCatalogue[g.R.Intn(len(optsCatalogue))]
+			o.AllowNoIndex = g.R.Chance(30)
 			s.Opts = &o
 		}
+	case "withshardlimit":
+		s.Step = &sqlh.Step{Kind: "shard", Filter: g.limit(t)}
+	case "withdynamiclimit":
+		s.Step = &sqlh.Step{Kind: "dyn", Filter: g.limit(t), Cb: g.R.Chance(80), Cont: g.R.Chance(30)}
 	case "insert", "upsert", "update", "delete":
 		s.Row = g.row(t, h, g.R.Chance(60))
 		if op != "insert" && g.R.Chance(50) { // aim at a row that exists (ids 1..9 of the fixed contents)
@@ -362,7 +414,7 @@ func (g *gen) genCase() Case {
 	c.InTx = g.R.Chance(25)
 	c.Batching = g.R.Chance(40)
 	c.Commit = g.R.Chance(50)
-	ops := append(append([]string{}, singleOps...), "batch", "batch", "mbatch", "mbatch", "txseq", "txseq")
+	ops := append(append([]string{}, callOps...), "batch", "batch", "batch", "mbatch", "mbatch", "mbatch", "txseq", "txseq", "txseq")
 	op := ops[g.R.Intn(len(ops))]
 	switch op {
 	case "batch":
@@ -402,6 +454,9 @@ func (g *gen) genCase() Case {
 		}
 	default:
 		c.Sub = g.sub(t, c.Handle, op)
+		if g.R.Chance(45) {
+			c.Steps = g.chain(t, c.Handle)
+		}
 	}
 	return c
 }
